@@ -238,13 +238,10 @@ Proof.
     inversion Hl; subst; constructor; auto.
 Qed.
 
-(* direct use of LowLevelParser without a macros argument: the one call that writes month_names *)
-Definition safe_op (o : op) : Prop := match o with OLowLevel None _ => False | _ => True end.
-
-Lemma exec_cell0 cap fmt g o : wfG g -> safe_op o ->
+Lemma exec_cell0 cap fmt g o : wfG g ->
   let g1 := fst (exec cap fmt g o) in wfG g1 /\ h_get (g_heap g1) 0 = h_get (g_heap g) 0.
 Proof.
-  intros [Hlen Hrd] Hsafe. cbv zeta. destruct o as [m|r file|m files|src file|names n format|calls|b]; cbn [exec].
+  intros [Hlen Hrd]. cbv zeta. destruct o as [m|r file|m files|src file|names n format|calls|b|id]; cbn [exec].
   - (* ONewReader *)
     unfold new_reader. unfold wfG; cbn [fst g_heap g_readers]. split; [split|].
     + rewrite app_length. lia.
@@ -263,7 +260,9 @@ Proof.
     destruct (feed_files (new_macros (g_heap g) m) (mkReader 0 [] []) files (g_err g)) as [[[c2 rd2] e2] u].
     unfold wfG; cbn [fst g_heap g_readers]. split; [split|]; auto.
   - (* OLowLevel *)
-    destruct src as [r|]; [|contradiction].
+    destruct src as [r|].
+    2: { destruct (lowlevel false _ file (g_err g)) as [[cell1 e1] rr].
+         unfold wfG; cbn [fst g_heap g_readers]. split; [split|]; auto. }
     destruct (nth_error (g_readers g) r) as [rd|] eqn:En; [|cbn [fst]; split; [split|]; auto].
     assert (Hc : 1 <= r_cell rd) by (eapply Forall_forall in Hrd; [apply Hrd | eapply nth_error_In; eauto]).
     destruct (lowlevel false (h_get (g_heap g) (r_cell rd)) file (g_err g)) as [[cell1 e1] rr].
@@ -275,36 +274,36 @@ Proof.
   - destruct (bst_calls cap fmt calls (g_mf g, (g_ms g, g_err g))) as [[mf1 [ms1 e1]] v].
     unfold wfG; cbn [fst g_heap g_readers]. split; [split|]; auto.
   - unfold wfG; cbn [fst g_heap g_readers]. split; [split|]; auto.
+  - cbn [fst]. split; [split|]; auto.
 Qed.
 
-Lemma step_cell0 cap fmt g co : wfG g -> safe_op (snd co) ->
+Lemma step_cell0 cap fmt g co : wfG g ->
   let g1 := fst (step cap fmt g co) in wfG g1 /\ h_get (g_heap g1) 0 = h_get (g_heap g) 0.
 Proof.
-  intros Hwf Hs. destruct co as [cpt o]. cbn [snd] in Hs. cbv zeta. unfold step.
+  intros Hwf. destruct co as [cpt o]. cbv zeta. unfold step.
   destruct cpt.
-  - pose proof (exec_cell0 cap fmt (with_err (with_err g (clear_stderr (g_err g))) (capture_enter (g_err (with_err g (clear_stderr (g_err g)))))) o Hwf Hs) as H.
+  - pose proof (exec_cell0 cap fmt (with_err (with_err g (clear_stderr (g_err g))) (capture_enter (g_err (with_err g (clear_stderr (g_err g)))))) o Hwf) as H.
     cbv zeta in H. destruct (exec cap fmt _ o) as [g1 v]. cbn [fst] in *. exact H.
-  - pose proof (exec_cell0 cap fmt (with_err g (clear_stderr (g_err g))) o Hwf Hs) as H.
+  - pose proof (exec_cell0 cap fmt (with_err g (clear_stderr (g_err g))) o Hwf) as H.
     cbv zeta in H. destruct (exec cap fmt _ o) as [g1 v]. cbn [fst] in *. exact H.
 Qed.
 
-Lemma run_cell0 cap fmt cos : forall g, wfG g -> Forall (fun co => safe_op (snd co)) cos ->
+Lemma run_cell0 cap fmt cos : forall g, wfG g ->
   wfG (final cap fmt g cos) /\ h_get (g_heap (final cap fmt g cos)) 0 = h_get (g_heap g) 0.
 Proof.
-  unfold final. induction cos as [|co r IH]; intros g Hwf Hs; cbn [run fst]; auto.
-  inversion Hs as [|? ? H1 H2]; subst.
-  pose proof (step_cell0 cap fmt g co Hwf H1) as Hst. cbv zeta in Hst.
+  unfold final. induction cos as [|co r IH]; intros g Hwf; cbn [run fst]; auto.
+  pose proof (step_cell0 cap fmt g co Hwf) as Hst. cbv zeta in Hst.
   destruct (step cap fmt g co) as [g1 out]. cbn [fst] in Hst. destruct Hst as [Hw1 Hc1].
-  specialize (IH g1 Hw1 H2). destruct (run cap fmt g1 r) as [g2 outs]. cbn [fst] in *.
+  specialize (IH g1 Hw1). destruct (run cap fmt g1 r) as [g2 outs]. cbn [fst] in *.
   destruct IH as [Hw2 Hc2]. split; auto. congruence.
 Qed.
 
 Lemma wfG0 : wfG G0.
 Proof. split; cbn; auto. Qed.
 
-Lemma month_names_invariant_lemma cap fmt cos : Forall (fun co => safe_op (snd co)) cos ->
+Lemma month_names_invariant_lemma cap fmt cos :
   h_get (g_heap (final cap fmt G0 cos)) 0 = mkCell false month_names.
-Proof. intro H. destruct (run_cell0 cap fmt cos G0 wfG0 H) as [_ Hc]. rewrite Hc. reflexivity. Qed.
+Proof. destruct (run_cell0 cap fmt cos G0 wfG0) as [_ Hc]. rewrite Hc. reflexivity. Qed.
 
 (* ------------------------------------------------------------------------------------- *)
 (* a fresh reader's result depends on the process state only through month_names and the
@@ -327,12 +326,11 @@ Proof.
 Qed.
 
 Lemma parse_history_independent_lemma cap fmt cos c macros files :
-  Forall (fun co => safe_op (snd co)) cos ->
   let g := final cap fmt G0 cos in
   snd (step cap fmt g (c, OParse macros files)) = snd (step cap fmt (with_err G0 (g_err g)) (c, OParse macros files)).
 Proof.
-  intros Hs. cbv zeta. apply parse_isolated_lemma; [|reflexivity].
-  destruct (run_cell0 cap fmt cos G0 wfG0 Hs) as [_ Hc]. rewrite Hc. reflexivity.
+  cbv zeta. apply parse_isolated_lemma; [|reflexivity].
+  destruct (run_cell0 cap fmt cos G0 wfG0) as [_ Hc]. rewrite Hc. reflexivity.
 Qed.
 
 (* files of one reader accumulate: parsing fs1 ++ fs2 is parsing fs2 in the state fs1 left *)
@@ -430,19 +428,22 @@ Qed.
 Lemma exec_memos_ok cap fmt g o : 0 < cap -> quiet fmt -> memos_ok cap fmt g -> memos_ok cap fmt (fst (exec cap fmt g o)).
 Proof.
   intros Hcap Hq (H1 & H2 & H3 & H4). unfold memos_ok.
-  destruct o as [m|r file|m files|src file|names n format|calls|b]; cbn [exec].
+  destruct o as [m|r file|m files|src file|names n format|calls|b|id]; cbn [exec].
   - unfold new_reader. cbn [fst]. msplit.
   - destruct (nth_error (g_readers g) r) as [rd|]; [|msplit].
     destruct (feed _ rd file (g_err g)) as [[[c1 rd1] e1] u]. msplit.
   - destruct (feed_files _ _ files (g_err g)) as [[[c2 rd2] e2] u]. msplit.
-  - destruct (match src with None => Some 0 | Some r => _ end) as [i|]; [|msplit].
-    destruct (lowlevel false _ file (g_err g)) as [[cell1 e1] rr]. msplit.
+  - destruct src as [r|].
+    + destruct (nth_error (g_readers g) r) as [rd|]; [|msplit].
+      destruct (lowlevel false _ file (g_err g)) as [[cell1 e1] rr]. msplit.
+    + destruct (lowlevel false _ file (g_err g)) as [[cell1 e1] rr]. msplit.
   - pose proof (format_call_spec cap fmt (names, n, format) (g_mf g) (g_ms g) (g_err g) Hcap Hq H1 H2 H3 H4) as Hc.
     cbv zeta in Hc. destruct (memo_call nkey_eqb cap (format_name_f cap fmt) (names, n, format) _) as [[mf1 [ms1 e1]] v].
     cbn [fst snd] in *. destruct Hc as (_ & Hc1 & Hc2 & (Hc3 & Hc4 & _)). msplit.
   - pose proof (bst_calls_spec cap fmt Hcap Hq calls (g_mf g) (g_ms g) (g_err g) H1 H2 H3 H4) as Hc.
     cbv zeta in Hc. destruct (bst_calls cap fmt calls _) as [[mf1 [ms1 e1]] v].
     cbn [fst snd] in *. destruct Hc as (Hc1 & Hc2 & (Hc3 & Hc4 & _)). msplit.
+  - msplit.
   - msplit.
 Qed.
 
@@ -504,13 +505,7 @@ Proof.
   cbv zeta in H. tauto.
 Qed.
 
-Definition x_jan : str := Eval vm_compute in s2l "jan".
-Definition leak_history : list (bool * op) := [(false, OLowLevel None [CString x_jan [VLit [88%N]]])].
 Definition no_fmt : fmt_fun := fun _ _ => ([], Ok []).
-
-Lemma month_names_refuted_lemma :
-  exists cap fmt cos, h_get (g_heap (final cap fmt G0 cos)) 0 <> mkCell false month_names.
-Proof. exists 1024, no_fmt, leak_history. vm_compute. discriminate. Qed.
 
 (* a formatter that reports 'Too many commas' for every name (as Person(name) does for 'a, b, c, d') *)
 Definition noisy_fmt : fmt_fun := fun n _ => ([(E_NAME, n)], Ok n).
@@ -621,19 +616,22 @@ Qed.
 Lemma exec_caches_ok cap fmt g o : 0 < cap -> caches_ok cap fmt g -> caches_ok cap fmt (fst (exec cap fmt g o)).
 Proof.
   intros Hcap (H1 & H2 & H3 & H4). unfold caches_ok.
-  destruct o as [m|r file|m files|src file|names n format|calls|b]; cbn [exec].
+  destruct o as [m|r file|m files|src file|names n format|calls|b|id]; cbn [exec].
   - unfold new_reader. cbn [fst]. msplit.
   - destruct (nth_error (g_readers g) r) as [rd|]; [|msplit].
     destruct (feed _ rd file (g_err g)) as [[[c1 rd1] e1] u]. msplit.
   - destruct (feed_files _ _ files (g_err g)) as [[[c2 rd2] e2] u]. msplit.
-  - destruct (match src with None => Some 0 | Some r => _ end) as [i|]; [|msplit].
-    destruct (lowlevel false _ file (g_err g)) as [[cell1 e1] rr]. msplit.
+  - destruct src as [r|].
+    + destruct (nth_error (g_readers g) r) as [rd|]; [|msplit].
+      destruct (lowlevel false _ file (g_err g)) as [[cell1 e1] rr]. msplit.
+    + destruct (lowlevel false _ file (g_err g)) as [[cell1 e1] rr]. msplit.
   - pose proof (format_call_any cap fmt (names, n, format) (g_mf g) (g_ms g) (g_err g) Hcap H1 H2 H3 H4) as Hc.
     cbv zeta in Hc. destruct (memo_call nkey_eqb cap (format_name_f cap fmt) (names, n, format) _) as [[mf1 [ms1 e1]] v].
     cbn [fst snd] in *. destruct Hc as (Hc1 & Hc2 & (Hc3 & Hc4) & _). msplit.
   - pose proof (bst_calls_any cap fmt Hcap calls (g_mf g) (g_ms g) (g_err g) H1 H2 H3 H4) as Hc.
     cbv zeta in Hc. destruct (bst_calls cap fmt calls _) as [[mf1 [ms1 e1]] v].
     cbn [fst snd] in *. destruct Hc as (Hc1 & Hc2 & (Hc3 & Hc4)). msplit.
+  - msplit.
   - msplit.
 Qed.
 
@@ -889,22 +887,26 @@ Section ErrInv.
   Lemma exec_P cap fmt g o : (forall b, o = OSetStrict b -> P (set_strict b (g_err g))) ->
     P (g_err g) -> P (g_err (fst (exec cap fmt g o))).
   Proof.
-    intros P_strict He. destruct o as [m|r file|m files|src file|names n format|calls|b]; cbn [exec].
+    intros P_strict He. destruct o as [m|r file|m files|src file|names n format|calls|b|id]; cbn [exec].
     - unfold new_reader. cbn [fst g_err]. auto.
     - destruct (nth_error (g_readers g) r) as [rd|]; [|auto].
       pose proof (feed_P file (h_get (g_heap g) (r_cell rd)) rd (g_err g) He) as H1.
       destruct (feed _ rd file (g_err g)) as [[[c1 rd1] e1] u]. cbn [fst snd g_err] in *. auto.
     - pose proof (feed_files_P files (new_macros (g_heap g) m) (mkReader 0 [] []) (g_err g) He) as H1.
       destruct (feed_files _ _ files (g_err g)) as [[[c2 rd2] e2] u]. cbn [fst snd g_err] in *. auto.
-    - destruct (match src with None => Some 0 | Some r => _ end) as [i|]; [|auto].
-      pose proof (lowlevel_P false file (h_get (g_heap g) i) (g_err g) He) as H1.
-      destruct (lowlevel false _ file (g_err g)) as [[cell1 e1] rr]. cbn [fst snd g_err] in *. auto.
+    - destruct src as [r|].
+      + destruct (nth_error (g_readers g) r) as [rd|]; [|auto].
+        pose proof (lowlevel_P false file (h_get (g_heap g) (r_cell rd)) (g_err g) He) as H1.
+        destruct (lowlevel false _ file (g_err g)) as [[cell1 e1] rr]. cbn [fst snd g_err] in *. auto.
+      + pose proof (lowlevel_P false file (mkCell false (c_items (h_get (g_heap g) 0))) (g_err g) He) as H1.
+        destruct (lowlevel false _ file (g_err g)) as [[cell1 e1] rr]. cbn [fst snd g_err] in *. auto.
     - pose proof (format_call_P cap fmt (names, n, format) (g_mf g) (g_ms g) (g_err g) He) as H1.
       destruct (memo_call nkey_eqb cap (format_name_f cap fmt) (names, n, format) _) as [[mf1 [ms1 e1]] v].
       cbn [fst snd g_err] in *. auto.
     - pose proof (bst_calls_P cap fmt calls (g_mf g) (g_ms g) (g_err g) He) as H1.
       destruct (bst_calls cap fmt calls _) as [[mf1 [ms1 e1]] v]. cbn [fst snd g_err] in *. auto.
     - cbn [fst g_err]. apply P_strict. reflexivity.
+    - cbn [fst]. auto.
   Qed.
 End ErrInv.
 
@@ -982,12 +984,29 @@ Qed.
 
 (* history independence of parsing, in the default reporting mode, with nothing left over *)
 Lemma parse_history_independent_strict_lemma cap fmt cos c macros files :
-  Forall (fun co => safe_op (snd co) /\ keeps_strict (snd co)) cos ->
+  Forall (fun co => keeps_strict (snd co)) cos ->
   snd (step cap fmt (final cap fmt G0 cos) (c, OParse macros files)) = snd (step cap fmt G0 (c, OParse macros files)).
 Proof.
-  intro H.
-  assert (H1 : Forall (fun co => safe_op (snd co)) cos) by (eapply Forall_impl; [|exact H]; intros a Ha; apply Ha).
-  assert (H2 : Forall (fun co => keeps_strict (snd co)) cos) by (eapply Forall_impl; [|exact H]; intros a Ha; apply Ha).
-  pose proof (parse_history_independent_lemma cap fmt cos c macros files H1) as Hp. cbv zeta in Hp.
+  intro H2.
+  pose proof (parse_history_independent_lemma cap fmt cos c macros files) as Hp. cbv zeta in Hp.
   rewrite Hp, (run_errs0 cap fmt cos H2). reflexivity.
+Qed.
+
+(* a LowLevelParser built without a macros argument works on a private copy of month_names: its
+   outcome depends on the process state through month_names and the reporting cells only *)
+Lemma lowlevel_default_isolated_lemma cap fmt g g' c file :
+  h_get (g_heap g) 0 = h_get (g_heap g') 0 -> g_err g = g_err g' ->
+  snd (step cap fmt g (c, OLowLevel None file)) = snd (step cap fmt g' (c, OLowLevel None file)).
+Proof.
+  intros Hh He. unfold step, exec. destruct c; cbn [with_err g_err g_heap g_readers g_ms g_mf];
+    rewrite Hh, He; destruct (lowlevel false _ file _) as [[c2 e2] u]; reflexivity.
+Qed.
+
+Lemma lowlevel_history_independent_strict_lemma cap fmt cos c file :
+  Forall (fun co => keeps_strict (snd co)) cos ->
+  snd (step cap fmt (final cap fmt G0 cos) (c, OLowLevel None file)) = snd (step cap fmt G0 (c, OLowLevel None file)).
+Proof.
+  intro H2. apply lowlevel_default_isolated_lemma.
+  - destruct (run_cell0 cap fmt cos G0 wfG0) as [_ Hc]. exact Hc.
+  - rewrite (run_errs0 cap fmt cos H2). reflexivity.
 Qed.
